@@ -244,6 +244,9 @@ func Substring(ctx *expr.Context, input system.Collection, args ...expr.Expressi
 		if err != nil {
 			return nil, err
 		}
+		if substringLength < 0 {
+			return system.Collection{system.String("")}, nil // a negative length selects no characters
+		}
 	}
 
 	var result system.String
